@@ -242,6 +242,12 @@ fn check_seq(p: &Props, sv: &SeqView, info: &PlanInfo, last_only: bool, out: &mu
             out.push(v("C12", "tl-order", format!("thread-local list {:?}, registered {:?}", l.tl, tl_members)));
         }
     }
+    // C07: what is registered inside a batch stays inside it (and runs on every inner dispatch): the thread-local list
+    // of every inner dispatcher holds exactly the inner builder's thread-local systems, and nothing of a batch shows
+    // up in the list of the dispatcher around it
+    if p.c07 && l.tl != tl_members && (sv.depth > 0 || info.nodes.iter().any(|n| n.kind == Kind::Batch)) {
+        out.push(v("C07", "batch-thread-local-systems-moved", format!("thread-local list at depth {} is {:?}, registered there {:?}", sv.depth, l.tl, tl_members)));
+    }
     if pos.len() != stage_members.len() || stage_members.iter().any(|id| !pos.contains_key(id)) {
         // layout not consistent with registration: the remaining checks would be meaningless
         if !(p.c04) {
